@@ -15,6 +15,8 @@ RULES = [  # (regex on the commit subject, property)
 OVERRIDE = {}  # commit-hash -> property, for subjects the rules get wrong
 log = subprocess.run(["git", "-C", "/repo", "log", "--reverse", "--format=%h|%s", "4564555..main"], capture_output=True, text=True).stdout.splitlines()
 kf = json.load(open("/verif/known_findings.json"))
+hashes = {l.split("|", 1)[0] for l in log}
+kf["findings"] = [e for e in kf["findings"] if not (e.get("status") == "fixed" and e.get("commit") not in hashes)]  # rebased away
 have = {e.get("commit") for e in kf["findings"] if e.get("status") == "fixed"}
 unk = []
 for line in log:
